@@ -5,6 +5,6 @@ CONSTANTS
   Items = {a, b, c}
   ContItems = {b}
   LateItems = {c}
-  StartMayFail = FALSE
+  StartMayFail = TRUE
 INVARIANTS TypeOK WorkOnce CompOnce CompAfterWork MaxRunning StartedCount NoStrandedWork HooksPaired FreedOnlyWhenDone NoSubmitLost
 CHECK_DEADLOCK FALSE
